@@ -149,6 +149,13 @@ def jsonable(o):
     return repr(o)
 
 
+def relpath(p: pathlib.Path) -> str:
+    try:
+        return str(p.relative_to(VERIF))
+    except ValueError:
+        return str(p)
+
+
 def write_replay(prop: str, payload: dict) -> pathlib.Path:
     REPLAYS.mkdir(parents=True, exist_ok=True)
     blob = json.dumps(jsonable(payload), sort_keys=True, indent=1)
@@ -169,10 +176,21 @@ def main(argv=None) -> int:
     seed = int(os.environ.get('VERIF_SEED', '0') or 0)
     t0 = time.time()
 
+    # Development aid only (never used by the registered commands): run the same check
+    # against a scratch copy of the repository, e.g. a worktree carrying a seeded change.
+    dev_src = os.environ.get('EMSARRAY_VERIF_SRC')
+    expect = '/repo/src/'
+    if dev_src:
+        sys.path.insert(0, dev_src)
+        expect = str(pathlib.Path(dev_src).resolve()) + '/'
+        print(f'DEV MODE: emsarray taken from {dev_src}, not from /repo/src', file=sys.stderr)
+        global EVIDENCE, REPLAYS
+        EVIDENCE = pathlib.Path('/tmp/verif-dev-evidence')   # never mix with real evidence
+        REPLAYS = EVIDENCE / 'replays'
     try:
         import emsarray
         src = pathlib.Path(emsarray.__file__).resolve()
-        if not str(src).startswith('/repo/src/'):
+        if not str(src).startswith(expect):
             print(f'INFRA: emsarray imported from {src}, not from /repo/src', file=sys.stderr)
             return 2
         mod = importlib.import_module(f'harness.props.{prop.lower()}')
@@ -280,7 +298,7 @@ def main(argv=None) -> int:
             'other_failures': failures[1:10], 'broken': broken,
             'disagreements': ctx.disagreements[:5],
         })
-        print(f'VIOLATION property={prop} replay={path.relative_to(VERIF)}')
+        print(f'VIOLATION property={prop} replay={relpath(path)}')
         status = 1
     elif broken:
         violations = 1
@@ -290,7 +308,7 @@ def main(argv=None) -> int:
             'build_log_tail': build_log[-3000:] if proof_problems else '',
             'searched': (search_ctx.evaluations if search_ctx else 0),
         })
-        print(f'VIOLATION property={prop} replay={path.relative_to(VERIF)} no-failing-input-found')
+        print(f'VIOLATION property={prop} replay={relpath(path)} no-failing-input-found')
         status = 1
 
     # ---- evidence -------------------------------------------------------------
